@@ -124,8 +124,10 @@ def _run_one_inner(args):
     im = sys.modules.get("pyvc.interp")
     if im is not None:
         im.UNITS_READ.clear()
+        im.CONTRACTS_USED.clear()
     r = task.run()
     r["cached"] = False
+    r["contracts_used"] = sorted(im.CONTRACTS_USED) if im is not None else []
     try:
         r["units_read"] = _unit_hashes(task.root, set(im.UNITS_READ) if im is not None else set())
     except Exception:           # noqa
